@@ -790,6 +790,8 @@ func (tm *Manager) runTask(t *Task) {
 func (tm *Manager) Restart() error {
 	// one restart at a time: a second request waits for the first
 	// one's generation to be up and then replaces that generation
+	verifhook.Acquire(&tm.restarting, "manager-restarting", 0, 0)
+	defer verifhook.Release(&tm.restarting)
 	tm.restarting.Lock()
 	defer tm.restarting.Unlock()
 	select {
